@@ -650,6 +650,10 @@ func normNL(s string) string {
 				if s[j] == '\r' && j+1 < len(s) && s[j+1] == '\n' {
 					continue
 				}
+				if s[j] == '\r' {
+					b = append(b, '\n') // a bare CR is a line end too
+					continue
+				}
 				b = append(b, s[j])
 			}
 			return string(b)
